@@ -65,6 +65,8 @@ class Ctx:
         self.usize = usize if usize is not None else set()   # variables bound by `count`
         self.blk = False              # inside a macro definition: write every other read of a macro-local variable as `{ let v = v.clone(); v }`
         self.blk_n = 0
+        self.rsm = False              # inside a macro definition: reads of macro-local variables / comparisons written through Rust macros NESTED in a larger expression
+        self.rsm_n = 0
 
     def var(self, v):
         if isinstance(v, tuple): return f"$p{v[1]}"
@@ -82,6 +84,9 @@ def s_ex(e, cx):
         if cx.blk and cx.params is not None and isinstance(v, int):
             cx.blk_n += 1
             if cx.blk_n % 2 == 1: return f"{{ let {cx.var(v)} = {cx.var(v)}.clone(); {cx.var(v)} }}"
+        if cx.rsm and cx.params is not None and isinstance(v, int):
+            cx.rsm_n += 1
+            if cx.rsm_n % 2 == 1: return f"vec![{cx.var(v)}.clone()][0].clone()"       # a Rust macro invocation that is NOT the whole expression
         return f"{cx.var(v)}.clone()"
     if e[0] == "somex": return f"Some({s_ex(e[1], cx)})"
     a, b = s_ex(e[1], cx), s_ex(e[2], cx)
@@ -94,6 +99,9 @@ def s_bx(b, cx):
     if b[0] in ("and", "or"): return f"({s_bx(b[1], cx)} {'&&' if b[0] == 'and' else '||'} {s_bx(b[2], cx)})"
     if b[0] == "not": return f"!({s_bx(b[1], cx)})"
     op = {"lt": "<", "le": "<=", "eq": "==", "ne": "!="}[b[0]]
+    if cx.rsm and cx.params is not None:
+        cx.rsm_n += 1
+        if cx.rsm_n % 3 == 0: return f"!matches!({s_ex(b[1], cx)} {op} {s_ex(b[2], cx)}, false)"     # `matches!` under a unary operator
     return f"({s_ex(b[1], cx)} {op} {s_ex(b[2], cx)})"
 
 
@@ -178,6 +186,7 @@ def s_rule(r, nm=None, bare_args=False):
 def s_macro(i, m, nm=None):
     cx = Ctx(nm, params=m["params"])
     cx.blk = bool(m.get("blk"))
+    cx.rsm = bool(m.get("rsm"))
     ps = ", ".join(f"$p{j}: {k}" for j, k in enumerate(m["params"]))
     if "heads" in m: inner = ", ".join(s_head(h, cx) for h in m["heads"])
     else: inner = ", ".join(s_item(it, cx) for it in m["body"])
